@@ -183,3 +183,4 @@ Print Assumptions C13_bytes_iter_kmers.
 Print Assumptions C13_bytes_iter_kmer_exts.
 Print Assumptions C13_kmers_from_bytes.
 Print Assumptions C13_kmers_from_ascii.
+Print Assumptions C13_kmer_exts_item_form.
